@@ -41,6 +41,22 @@ def Out.isAnswer : Out → Bool
   | .rrsAnswer _ _ => true
   | _ => false
 
+/-! ## the transport guard -/
+
+@[simp] theorem St.send_nil (s : St) : s.send [] = [] := by simp [St.send]
+
+theorem St.send_of_some (s : St) (h : s.transport.isSome = true) (o : List Out) : s.send o = o := by
+  simp [St.send, h]
+
+theorem St.send_of_none (s : St) (h : s.transport = Option.none) (o : List Out) : s.send o = [] := by
+  simp [St.send, h]
+
+theorem St.send_sublist (s : St) (o : List Out) (x : Out) (hx : x ∈ s.send o) : x ∈ o ∧ s.transport.isSome = true := by
+  unfold St.send at hx
+  split at hx
+  · exact ⟨hx, by assumption⟩
+  · cases hx
+
 theorem opOffline_ne_opRequest : opOffline ≠ opRequest := by decide
 
 /-! ## the base handler, class by class -/
@@ -49,8 +65,8 @@ theorem opOffline_ne_opRequest : opOffline ≠ opRequest := by decide
 heartbeat; one heartbeat for a heartbeat while connected -/
 theorem stepBase_outs (s : St) (m : Msg) :
     (stepBase s (some m)).2.1 =
-      if m.heartbeatClass then (if s.connected then [.heartbeat] else [])
-      else if m.pktType.isAck then [] else [.ack m] := by
+      s.send (if m.heartbeatClass then (if s.connected then [.heartbeat] else [])
+        else if m.pktType.isAck then [] else [.ack m]) := by
   obtain ⟨v, ⟨o, r, cl, co, hb, a⟩, sn, ob, pl⟩ := m
   cases co <;> cases hb <;> cases cl <;> cases a <;> cases r <;>
     simp [stepBase, Msg.heartbeatClass]
@@ -78,6 +94,16 @@ theorem stepBase_registry (s : St) (m : Option Msg) : (stepBase s m).1.registry 
     obtain ⟨v, ⟨o, r, cl, co, hb, a⟩, sn, ob, pl⟩ := m
     cases co <;> cases hb <;> cases cl <;> cases a <;> cases r <;> simp [stepBase]
 
+/-- the configuration attributes and the transport are never written by `datagram_received` -/
+theorem stepBase_frame (s : St) (m : Option Msg) :
+    (stepBase s m).1.activePeer = s.activePeer ∧ (stepBase s m).1.port = s.port ∧
+    (stepBase s m).1.transport = s.transport := by
+  cases m with
+  | none => exact ⟨rfl, rfl, rfl⟩
+  | some m =>
+    obtain ⟨v, ⟨o, r, cl, co, hb, a⟩, sn, ob, pl⟩ := m
+    cases co <;> cases hb <;> cases cl <;> cases a <;> cases r <;> simp [stepBase]
+
 /-! ## the RRS handler on top of it -/
 
 theorem step_none (s : St) : step s Option.none = (s, [], (false, false)) := rfl
@@ -86,7 +112,7 @@ theorem step_none (s : St) : step s Option.none = (s, [], (false, false)) := rfl
 message carries a registration request -/
 theorem step_outs (s : St) (m : Msg) :
     (step s (some m)).2.1 = (stepBase s (some m)).2.1 ++
-      (match m.request with | some ip => [.rrsAnswer (nextSn s.sn) ip] | Option.none => []) := by
+      (match m.request with | some ip => s.send [.rrsAnswer (nextSn s.sn) ip] | Option.none => []) := by
   obtain ⟨v, t, sn, ob, pl⟩ := m
   cases pl with
   | none => simp [step, Msg.request]
@@ -94,7 +120,7 @@ theorem step_outs (s : St) (m : Msg) :
   | rrs op ip =>
     simp only [step, Msg.request]
     by_cases h1 : op = opRequest
-    · simp [h1, stepBase_sn]
+    · simp [h1, stepBase_sn, St.send, (stepBase_frame s _).2.2]
     · by_cases h2 : op = opOffline
       · subst h2; simp [opOffline_ne_opRequest]
       · simp [h1, h2]
@@ -193,7 +219,7 @@ theorem runFrom_connected (s : St) (h : List (Option Msg)) :
   | cons m t ih =>
     rw [runFrom_cons, ih, step_connected_cc]
     cases hc : ccOf m with
-    | none => simp [List.filterMap_cons, hc]
+    | none => simp [hc]
     | some b => simp only [List.filterMap_cons, hc, Option.getD_some, getLast?_getD_cons]
 
 /-- last registry update for radio `ip` in the history -/
@@ -285,6 +311,12 @@ theorem request_wf (m : Msg) (ip : Bytes) (h : m.WF = true) (hr : m.request = so
       exact ⟨h.2.1.2, fun x hx => by simpa using h.2.2 x hx⟩
     · cases hr
 
+theorem St.any_send_false (s : St) (o : List Out) (p : Out → Bool) (h : o.any p = false) :
+    (s.send o).any p = false := by
+  unfold St.send; split
+  · exact h
+  · rfl
+
 theorem step_not_raises (s : St) (m : Option Msg) (hm : ∀ x, m = some x → x.WF = true) :
     raises s m = false := by
   cases m with
@@ -293,7 +325,8 @@ theorem step_not_raises (s : St) (m : Option Msg) (hm : ∀ x, m = some x → x.
     have hwf := hm m rfl
     simp only [raises, step_outs, stepBase_outs, List.any_append, Bool.or_eq_false_iff]
     constructor
-    · by_cases h1 : m.heartbeatClass = true
+    · apply St.any_send_false
+      by_cases h1 : m.heartbeatClass = true
       · by_cases h2 : s.connected = true <;> simp [h1, h2, Out.raises]
       · by_cases h2 : m.pktType.isAck = true
         · simp [h1, h2]
@@ -303,12 +336,62 @@ theorem step_not_raises (s : St) (m : Option Msg) (hm : ∀ x, m = some x → x.
       | some ip =>
         obtain ⟨hl, hb⟩ := request_wf m ip hwf hr
         have hsn := nextSn_lt s.sn
+        apply St.any_send_false
         simp only [List.any_cons, List.any_nil, Bool.or_false, Out.raises, Bool.or_eq_false_iff,
           decide_eq_false_iff_not, Nat.not_le, List.any_eq_false]
         refine ⟨⟨by omega, by simp [hl]⟩, fun x hx => by simpa using hb x hx⟩
 
+theorem stepBase_not_raises (s : St) (m : Option Msg) (hm : ∀ x, m = some x → x.WF = true) :
+    (stepBase s m).2.1.any Out.raises = false := by
+  cases m with
+  | none => rfl
+  | some m =>
+    have hwf := hm m rfl
+    rw [stepBase_outs]
+    apply St.any_send_false
+    by_cases h1 : m.heartbeatClass = true
+    · by_cases h2 : s.connected = true <;> simp [h1, h2, Out.raises]
+    · by_cases h2 : m.pktType.isAck = true
+      · simp [h1, h2]
+      · simp [h1, h2, ack_not_raises m hwf]
+
+/-- the configuration attributes and the transport are never written by `datagram_received` -/
+theorem step_frame (s : St) (m : Option Msg) :
+    (step s m).1.activePeer = s.activePeer ∧ (step s m).1.port = s.port ∧
+    (step s m).1.transport = s.transport := by
+  have hb := stepBase_frame s m
+  cases m with
+  | none => exact ⟨rfl, rfl, rfl⟩
+  | some m =>
+    obtain ⟨v, t, sn, ob, pl⟩ := m
+    cases pl with
+    | none => simpa [step] using hb
+    | other => simpa [step] using hb
+    | rrs op ip =>
+      simp only [step]
+      by_cases h1 : op = opRequest
+      · simpa [h1] using hb
+      · by_cases h2 : op = opOffline
+        · subst h2; simpa [opOffline_ne_opRequest] using hb
+        · simpa [h1, h2] using hb
+
+theorem isRequest_eq (m : Msg) : isRequest (some m) = m.request.isSome := by
+  obtain ⟨v, t, sn, ob, pl⟩ := m
+  cases pl with
+  | none => rfl
+  | other => rfl
+  | rrs op ip =>
+    simp only [isRequest, Msg.request]
+    by_cases h : op = opRequest <;> simp [h]
+
+theorem raisesNoTransport_of_some (s : St) (m : Option Msg) (h : s.transport.isSome = true) :
+    raisesNoTransport s m = false := by
+  cases ht : s.transport with
+  | none => rw [ht] at h; cases h
+  | some t => simp [raisesNoTransport, ht]
+
 /-- the faithful run: stops at the first exception -/
-def runE (s : St) : List (Option Msg) → Except Unit (St × List (List Out))
+def runE (s : St) : List (Option Msg) → Except Exn (St × List (List Out))
   | [] => .ok (s, [])
   | m :: t =>
     match stepE s m with
@@ -318,14 +401,19 @@ def runE (s : St) : List (Option Msg) → Except Unit (St × List (List Out))
       | .error e => .error e
       | .ok rest => .ok (rest.1, r.2.1 :: rest.2)
 
-theorem runE_ok (s : St) (h : List (Option Msg)) (hm : ∀ x, some x ∈ h → x.WF = true) :
+theorem stepE_ok (s : St) (m : Option Msg) (ht : s.transport.isSome = true)
+    (hm : ∀ x, m = some x → x.WF = true) : stepE s m = .ok (step s m) := by
+  simp only [stepE, raisesNoTransport_of_some s m ht, step_not_raises s m hm, Bool.false_eq_true, if_false]
+
+theorem runE_ok (s : St) (h : List (Option Msg)) (ht : s.transport.isSome = true)
+    (hm : ∀ x, some x ∈ h → x.WF = true) :
     runE s h = .ok (runFrom s h) := by
   induction h generalizing s with
   | nil => rfl
   | cons m t ih =>
-    have h1 : raises s m = false := step_not_raises s m (fun x hx => hm x (by rw [hx]; exact List.mem_cons_self))
-    simp only [runE, stepE, h1, Bool.false_eq_true, if_false]
-    rw [ih _ (fun x hx => hm x (List.mem_cons_of_mem _ hx))]
+    have h1 := stepE_ok s m ht (fun x hx => hm x (by rw [hx]; exact List.mem_cons_self))
+    simp only [runE, h1]
+    rw [ih _ (by rw [(step_frame s m).2.2]; exact ht) (fun x hx => hm x (List.mem_cons_of_mem _ hx))]
     rfl
 
 /-! ## answers are not answered -/
@@ -340,7 +428,8 @@ theorem mem_outs (s : St) (m : Option Msg) (o : Out) (ho : o ∈ (step s m).2.1)
   | some x =>
     rw [step_outs, stepBase_outs, List.mem_append] at ho
     rcases ho with ho | ho
-    · by_cases h1 : x.heartbeatClass = true
+    · replace ho := (St.send_sublist s _ o ho).1
+      by_cases h1 : x.heartbeatClass = true
       · simp only [h1, if_true] at ho
         by_cases h2 : s.connected = true
         · simp only [h2, if_true, List.mem_singleton] at ho
@@ -354,8 +443,19 @@ theorem mem_outs (s : St) (m : Option Msg) (o : Out) (ho : o ∈ (step s m).2.1)
     · cases hr : x.request with
       | none => simp [hr] at ho
       | some ip =>
-        simp only [hr, List.mem_singleton] at ho
+        simp only [hr] at ho
+        replace ho := (St.send_sublist s _ o ho).1
+        simp only [List.mem_singleton] at ho
         exact Or.inr (Or.inr ⟨x, ip, rfl, hr, ho⟩)
+
+/-- nothing is sent without a transport -/
+theorem step_outs_no_transport (s : St) (m : Option Msg) (h : s.transport = Option.none) :
+    (step s m).2.1 = [] ∧ (stepBase s m).2.1 = [] := by
+  cases m with
+  | none => exact ⟨rfl, rfl⟩
+  | some x =>
+    rw [step_outs, stepBase_outs, St.send_of_none s h]
+    cases x.request <;> simp [St.send_of_none s h]
 
 /-- the acknowledgement of a message that is not heartbeat-class produces no output at a peer -/
 theorem ack_unanswered (s' : St) (x : Msg) (hhb : x.heartbeatClass = false) :
@@ -367,6 +467,242 @@ theorem ack_unanswered (s' : St) (x : Msg) (hhb : x.heartbeatClass = false) :
   have h2 : ({ x with pktType := ackType x.pktType, payload := Payload.none } : Msg).pktType.isAck = true := rfl
   have h3 : ({ x with pktType := ackType x.pktType, payload := Payload.none } : Msg).request = Option.none := rfl
   rw [h1, h2, h3]
-  rfl
+  simp
+
+/-! ## configuration does not matter -/
+
+/-- the state with the configuration attributes erased -/
+def St.core (s : St) : St := { s with activePeer := false, port := 0 }
+
+/-- the event with the value of a re-configuration erased -/
+def Ev.core : Ev → Ev
+  | .setActive _ => .setActive false
+  | .setPort _ => .setPort 0
+  | e => e
+
+theorem stepBase_cfg (s : St) (a : Bool) (p : Nat) (m : Option Msg) :
+    stepBase { s with activePeer := a, port := p } m =
+      ({ (stepBase s m).1 with activePeer := a, port := p }, (stepBase s m).2) := by
+  cases m with
+  | none => rfl
+  | some m =>
+    obtain ⟨v, ⟨o, r, cl, co, hb, ak⟩, sn, ob, pl⟩ := m
+    cases co <;> cases hb <;> cases cl <;> cases ak <;> cases r <;> simp [stepBase, St.send]
+
+theorem step_cfg (s : St) (a : Bool) (p : Nat) (m : Option Msg) :
+    step { s with activePeer := a, port := p } m =
+      ({ (step s m).1 with activePeer := a, port := p }, (step s m).2) := by
+  cases m with
+  | none => rfl
+  | some m =>
+    obtain ⟨v, t, sn, ob, pl⟩ := m
+    cases pl with
+    | none => simp [step, stepBase_cfg]
+    | other => simp [step, stepBase_cfg]
+    | rrs op ip =>
+      simp only [step, stepBase_cfg]
+      by_cases h1 : op = opRequest
+      · simp [h1, St.send]
+      · by_cases h2 : op = opOffline
+        · subst h2; simp [opOffline_ne_opRequest]
+        · simp [h1, h2]
+
+theorem stepK_cfg (k : Bool) (s : St) (a : Bool) (p : Nat) (m : Option Msg) :
+    stepK k { s with activePeer := a, port := p } m =
+      ({ (stepK k s m).1 with activePeer := a, port := p }, (stepK k s m).2) := by
+  cases k
+  · simp only [stepK, Bool.false_eq_true, if_false]; exact stepBase_cfg s a p m
+  · simp only [stepK, if_true]; exact step_cfg s a p m
+
+theorem St.core_eq (s : St) : s = { s.core with activePeer := s.activePeer, port := s.port } := rfl
+
+/-- one event: outputs and the configuration-erased state depend only on the configuration-erased
+state and event -/
+theorem applyEv_core (k : Bool) (s s' : St) (e e' : Ev) (hs : s.core = s'.core) (he : e.core = e'.core) :
+    (applyEv k s e).2 = (applyEv k s' e').2 ∧ (applyEv k s e).1.core = (applyEv k s' e').1.core := by
+  have key : ∀ (u : St) (m : Option Msg),
+      (stepK k u m).2 = (stepK k u.core m).2 ∧ (stepK k u m).1.core = (stepK k u.core m).1.core := by
+    intro u m
+    have h := stepK_cfg k u.core u.activePeer u.port m
+    rw [← St.core_eq u] at h
+    rw [h]
+    exact ⟨rfl, rfl⟩
+  cases e with
+  | rx m =>
+    cases e' with
+    | rx m' =>
+      have : m = m' := by simpa [Ev.core] using he
+      subst this
+      simp only [applyEv]
+      rw [(key s m).1, (key s' m).1, (key s m).2, (key s' m).2, hs]
+      exact ⟨rfl, rfl⟩
+    | _ => simp [Ev.core] at he
+  | made t c =>
+    cases e' with
+    | made t' c' =>
+      have : t = t' ∧ c = c' := by simpa [Ev.core] using he
+      obtain ⟨rfl, rfl⟩ := this
+      simp only [applyEv, connectionMade]
+      refine ⟨trivial, ?_⟩
+      have := congrArg (fun u : St => ({ u with transport := some t } : St)) hs
+      simpa [St.core] using this
+    | _ => simp [Ev.core] at he
+  | lost =>
+    cases e' with
+    | lost =>
+      simp only [applyEv, connectionLost]
+      refine ⟨trivial, ?_⟩
+      have := congrArg (fun u : St => ({ u with connected := false } : St)) hs
+      simpa [St.core] using this
+    | _ => simp [Ev.core] at he
+  | setActive b =>
+    cases e' with
+    | setActive b' => exact ⟨by simp [applyEv], by simpa [applyEv, St.core] using hs⟩
+    | _ => simp [Ev.core] at he
+  | setPort p =>
+    cases e' with
+    | setPort p' => exact ⟨by simp [applyEv], by simpa [applyEv, St.core] using hs⟩
+    | _ => simp [Ev.core] at he
+  | tick =>
+    cases e' with
+    | tick =>
+      simp only [applyEv]
+      refine ⟨?_, hs⟩
+      have h1 : s.connected = s'.connected := by
+        have := congrArg St.connected hs; simpa [St.core] using this
+      have h2 : s.transport = s'.transport := by
+        have := congrArg St.transport hs; simpa [St.core] using this
+      simp [tick, St.send, h1, h2]
+    | _ => simp [Ev.core] at he
+
+theorem runEv_cons (k : Bool) (s : St) (e : Ev) (t : List Ev) :
+    runEv k s (e :: t) = ((runEv k (applyEv k s e).1 t).1, (applyEv k s e).2 :: (runEv k (applyEv k s e).1 t).2) := rfl
+
+theorem runEv_core (k : Bool) (s s' : St) (h h' : List Ev) (hs : s.core = s'.core)
+    (hh : h.map Ev.core = h'.map Ev.core) :
+    (runEv k s h).2 = (runEv k s' h').2 ∧ (runEv k s h).1.core = (runEv k s' h').1.core := by
+  induction h generalizing s s' h' with
+  | nil =>
+    cases h' with
+    | nil => exact ⟨rfl, hs⟩
+    | cons _ _ => simp at hh
+  | cons e t ih =>
+    cases h' with
+    | nil => simp at hh
+    | cons e' t' =>
+      simp only [List.map_cons, List.cons.injEq] at hh
+      obtain ⟨h1, h2⟩ := applyEv_core k s s' e e' hs hh.1
+      obtain ⟨h3, h4⟩ := ih _ _ t' h2 hh.2
+      rw [runEv_cons, runEv_cons, h1, h3]
+      exact ⟨rfl, h4⟩
+
+/-! ## event histories -/
+
+/-- connect (`some true`) / close or `connection_lost` (`some false`) / neither -/
+def ccEv : Ev → Option Bool
+  | .rx m => ccOf m
+  | .lost => some false
+  | _ => Option.none
+
+theorem stepK_connected (k : Bool) (s : St) (m : Option Msg) :
+    (stepK k s m).1.connected = (ccOf m).getD s.connected := by
+  cases k
+  · simp only [stepK, Bool.false_eq_true, if_false]
+    rw [← step_connected, step_connected_cc]
+  · simp only [stepK, if_true]; exact step_connected_cc s m
+
+theorem applyEv_connected (k : Bool) (s : St) (e : Ev) :
+    (applyEv k s e).1.connected = (ccEv e).getD s.connected := by
+  cases e with
+  | rx m => exact stepK_connected k s m
+  | _ => rfl
+
+theorem runEv_connected (k : Bool) (s : St) (h : List Ev) :
+    (runEv k s h).1.connected = ((h.filterMap ccEv).getLast?).getD s.connected := by
+  induction h generalizing s with
+  | nil => rfl
+  | cons e t ih =>
+    rw [runEv_cons, ih, applyEv_connected]
+    cases hc : ccEv e with
+    | none => simp [hc]
+    | some b => simp only [List.filterMap_cons, hc, Option.getD_some, getLast?_getD_cons]
+
+/-- the datagrams of an event history -/
+def rxOf : Ev → Option (Option Msg)
+  | .rx m => some m
+  | _ => Option.none
+
+theorem applyEv_registry_sn (s : St) (e : Ev) :
+    (applyEv true s e).1.registry = (match rxOf e with | some m => (step s m).1.registry | Option.none => s.registry) ∧
+    (applyEv true s e).1.sn = (match rxOf e with | some m => (step s m).1.sn | Option.none => s.sn) := by
+  cases e <;> exact ⟨rfl, rfl⟩
+
+/-- registry and S/N after an event history = after its datagrams alone (RRS handler) -/
+theorem runEv_registry_sn (s : St) (h : List Ev) :
+    (runEv true s h).1.registry = (runFrom s (h.filterMap rxOf)).1.registry ∧
+    (runEv true s h).1.sn = (runFrom s (h.filterMap rxOf)).1.sn := by
+  have gen : ∀ (h : List Ev) (s s' : St), s.registry = s'.registry → s.sn = s'.sn →
+      (runEv true s h).1.registry = (runFrom s' (h.filterMap rxOf)).1.registry ∧
+      (runEv true s h).1.sn = (runFrom s' (h.filterMap rxOf)).1.sn := by
+    intro h
+    induction h with
+    | nil => intro s s' h1 h2; exact ⟨h1, h2⟩
+    | cons e t ih =>
+      intro s s' h1 h2
+      rw [runEv_cons]
+      have hreg : ∀ (m : Option Msg), (step s m).1.registry = (step s' m).1.registry := by
+        intro m; rw [step_registry, step_registry, h1]
+      have hsn : ∀ (m : Option Msg), (step s m).1.sn = (step s' m).1.sn := by
+        intro m
+        cases m with
+        | none => exact h2
+        | some x => rw [step_sn, step_sn, h2]
+      cases e with
+      | rx m =>
+        simp only [List.filterMap_cons, rxOf, runFrom_cons]
+        exact ih _ _ (by simpa [applyEv, stepK] using hreg m) (by simpa [applyEv, stepK] using hsn m)
+      | made t' c => simpa [List.filterMap_cons, rxOf] using ih _ s' (by simpa [applyEv, connectionMade] using h1) (by simpa [applyEv, connectionMade] using h2)
+      | lost => simpa [List.filterMap_cons, rxOf] using ih _ s' (by simpa [applyEv, connectionLost] using h1) (by simpa [applyEv, connectionLost] using h2)
+      | setActive b => simpa [List.filterMap_cons, rxOf] using ih _ s' (by simpa [applyEv] using h1) (by simpa [applyEv] using h2)
+      | setPort p => simpa [List.filterMap_cons, rxOf] using ih _ s' (by simpa [applyEv] using h1) (by simpa [applyEv] using h2)
+      | tick => simpa [List.filterMap_cons, rxOf] using ih _ s' (by simpa [applyEv] using h1) (by simpa [applyEv] using h2)
+  exact gen h s s rfl rfl
+
+/-- the base handler has no registry and never moves its S/N -/
+theorem runEv_base_registry_sn (s : St) (h : List Ev) :
+    (runEv false s h).1.registry = s.registry ∧ (runEv false s h).1.sn = s.sn := by
+  induction h generalizing s with
+  | nil => exact ⟨rfl, rfl⟩
+  | cons e t ih =>
+    rw [runEv_cons]
+    obtain ⟨h1, h2⟩ := ih (applyEv false s e).1
+    rw [h1, h2]
+    cases e with
+    | rx m => exact ⟨by simpa [applyEv, stepK] using stepBase_registry s m, by simpa [applyEv, stepK] using stepBase_sn s m⟩
+    | _ => exact ⟨rfl, rfl⟩
+
+/-- last re-configuration of `be_active_peer` in an event history -/
+def activeEv : Ev → Option Bool
+  | .setActive b => some b
+  | _ => Option.none
+
+theorem applyEv_active (k : Bool) (s : St) (e : Ev) :
+    (applyEv k s e).1.activePeer = (activeEv e).getD s.activePeer := by
+  cases e with
+  | rx m =>
+    cases k
+    · simpa [applyEv, stepK, activeEv] using (stepBase_frame s m).1
+    · simpa [applyEv, stepK, activeEv] using (step_frame s m).1
+  | _ => rfl
+
+theorem runEv_active (k : Bool) (s : St) (h : List Ev) :
+    (runEv k s h).1.activePeer = ((h.filterMap activeEv).getLast?).getD s.activePeer := by
+  induction h generalizing s with
+  | nil => rfl
+  | cons e t ih =>
+    rw [runEv_cons, ih, applyEv_active]
+    cases hc : activeEv e with
+    | none => simp [hc]
+    | some b => simp only [List.filterMap_cons, hc, Option.getD_some, getLast?_getD_cons]
 
 end Dmr.HstrpHandler
